@@ -17,6 +17,7 @@ import PgProofs.GenoViews
 import PgProofs.GenoNumbers
 import PgProofs.GenoAlign
 import PgProofs.GenoDict
+import PgProofs.GenoDict2
 import PgModel.Geno.Valid
 namespace Pg.Geno
 
@@ -89,6 +90,26 @@ theorem C12_from_dict (g : Spec) (hc : g.noCustom = true) (d : DNA) (b : BDNA) (
     g.fromDict useInts D = some d :=
   fromDict_of_good D o useInts g hc d b hv hb hD
 
+/-- END TO END for the default options: `DNA.from_dict(d.to_dict(), spec) == d` for every valid `d` of
+every spec without custom points, under the explicit decidable condition that the decisions of
+`d` are stored under pairwise different keys (`puts0 b`: the `_put` calls of `to_dict()`; their
+keys are the rendered ids of the decision points `d` passes through). -/
+theorem C12_dict_default_roundtrip (g : Spec) (hc : g.noCustom = true) (d : DNA) (b : BDNA)
+    (hv : Valid g d) (hb : g.annot d = some b) (hkeys : ((puts0 b).map (·.1)).Nodup) :
+    g.fromDict false (toDict {} b) = some d :=
+  fromDict_toDict_default g hc d b hv hb hkeys
+
+/-- Dropping the condition: two decision points at the same location share one key, `to_dict()`
+turns their decisions into a list, and `from_dict` cannot read it back (replayed on the code:
+`space([oneof(.., location='a'), oneof(.., location='a')])`, `DNA([0, 1]).to_dict() == {'a': [0, 1]}`). -/
+theorem C12_dict_same_key_counterexample :
+    let g := Spec.space [.choices 1 [[], []] true false { loc := [.s "a"] },
+                         .choices 1 [[], []] true false { loc := [.s "a"] }]
+    let d := DNA.mk .none [.mk (.int 0) [], .mk (.int 1) []]
+    Valid g d ∧ (match g.annot d with
+      | some b => decide (g.fromDict false (toDict {} b) = none)
+      | none => false) = true := by decide
+
 /-- The readability half of `Good` follows from the explicit conditions `styleOk` on the literal
 values: plain values need `use_ints_as_literals=False`; the literal style needs pairwise different
 literals, integer literals only with `use_ints_as_literals=True`, and no string literal shaped
@@ -135,6 +156,9 @@ example : (match (Spec.point (.choices 1 [[], [.choices 1 [[], []] true false { 
     | some b => decide ((Spec.point (.choices 1 [[], [.choices 1 [[], []] true false { name := some "inner", loc := [.s "b"] }]]
         true false { name := some "outer", loc := [.s "a"] })).fromDict false
         (toDict { keyType := 1 } b) = some (.mk (.int 1) [.mk (.int 0) []]))
+    | none => false) = true := by decide
+example : (match exampleSpec12.annot exampleDna12 with
+    | some b => decide (((puts0 b).map (·.1)).Nodup)
     | none => false) = true := by decide
 /-- `Good` is satisfiable: the default dictionary view of the example DNA holds its decisions. -/
 example : (match exampleSpec12.annot exampleDna12 with
